@@ -312,6 +312,7 @@ def r9_orderly_socket_close(ctx):
 def run(ctx):
     r9_orderly_socket_close(ctx)
     from . import C02 as _C02t
+    _C02t.r4_inert_branches(ctx)      # data for a stream whose reader has gone is dropped, not turned into a session error: one stream's early end does not end its siblings before their data is through
     _C02t.r1_table_keys(ctx)          # only the frame dispatcher, open_stream and close() touch the stream tables: a front-end cannot drop a stream's inbound queue when one direction ends
     from . import effects
     effects.check_property(ctx, "C08")    # R08.E: no operation on shared protocol state outside the reviewed table
